@@ -645,13 +645,15 @@ def conform(ctx, U, T, sharing, keys, corrupt=None):
         G = [[real_cmp(A[i], B[j]) for j in range(n)] for i in range(n)]
         E = [[T[(i + 1, j + 1)]["eq"] for j in range(n)] for i in range(n)]
         sgn = lambda v: (v > 0) - (v < 0)  # noqa: E731
-        broken = None
+        broken = wit = None
         for i in range(n):
             for j in range(n):
                 if (G[i][j] == 0) != E[i][j]:
                     broken = ("tie-vs-equality", f"cmp_expr({show(U[i])}, {show(U[j])}) = {G[i][j]} but the expressions are {'equal' if E[i][j] else 'different'}")
+                    wit = ("EquivImpliesZero" if E[i][j] else "ZeroImpliesEquiv", i, j, j)
                 elif sgn(G[i][j]) != -sgn(G[j][i]):
                     broken = ("antisymmetry", f"cmp_expr({show(U[i])}, {show(U[j])}) = {G[i][j]} and the reverse = {G[j][i]}")
+                    wit = ("Antisymmetric", i, j, j)
                 if broken:
                     break
             if broken:
@@ -664,6 +666,7 @@ def conform(ctx, U, T, sharing, keys, corrupt=None):
                     for k in range(n):
                         if G[j][k] < 0 and not G[i][k] < 0:
                             broken = ("transitivity", f"{show(U[i])} < {show(U[j])} < {show(U[k])} but cmp_expr(first, third) = {G[i][k]}")
+                            wit = ("Transitive", i, j, k)
                             break
                     if broken:
                         break
@@ -672,7 +675,8 @@ def conform(ctx, U, T, sharing, keys, corrupt=None):
         if broken:
             i, j, want, got, br = bad[0]
             ctx.violation(f"C29:real-order:{broken[0]}", f"cmp_expr is not a total order consistent with equality: {broken[1]} ({len(bad)} of {n * n} pairs differ from Ordering.tla, sharing={sharing})",
-                          {"kind": "real-order", "law": broken[0], "detail": broken[1], "sharing": sharing})
+                          {"mode": "terms-law", "law": wit[0], "terms": [U[wit[1]], U[wit[2]], U[wit[3]]], "sharing": sharing is True,
+                           "kind": "real-order", "detail": broken[1], "fingerprint": f"C29:real-order:{broken[0]}"})
             return len(bad)
         i, j, want, got, br = bad[0]
         raise MachineryError(
@@ -751,9 +755,9 @@ def model_part(ctx, keys):
     ctx.cov["model_triples"] = 0
     rrule = probe_repr_rule()
     ctx.cov["repr_transcription"] = rrule
-    (U, T, fail), (U2, T2, _), rs, ru = run_models(
-        ctx, [(True, full, rule, big, True), (False, full, rule, big, False), (True, full, rule, big, True, "repr"), (False, full, rule, big, True, "repr")]
-    )
+    # the repr slice is modelled without sharing: every pair of terminals reaches its comparator (with sharing the
+    # `is` shortcuts answer for equal literals; those shortcuts are the main slice's subject)
+    (U, T, fail), (U2, T2, _), ru = run_models(ctx, [(True, full, rule, big, True), (False, full, rule, big, False), (False, full, rule, big, True, "repr")])
     branch_coverage(U, T, True)
     branch_coverage(U2, T2, False)
     ctx.cov["universe_terms"] = len(U)
@@ -807,20 +811,18 @@ def model_part(ctx, keys):
         except MachineryError as ex:
             deferred.append(ex)
 
-    ctx.cov["repr_slice_terms"] = len(rs[0])
-    if rs[0] != ru[0]:
-        raise MachineryError("repr slice: universe differs between the two sharing modes")
-    for sharing, (Ur, Tr, fr) in ((True, rs), (False, ru)):
-        repr_coverage(Ur, Tr, rrule)
-        if fr is not None:
-            replay_predicted(ctx, Ur, Tr, sharing, keys, fr)
-            ctx.count("laws_not_rechecked_after_unmasked_failure")
-        else:
-            ctx.cov["model_triples"] += len(Ur) ** 3
-            if predicted_failures(Ur, Tr):
-                raise MachineryError("TLC accepted the laws on the repr slice but the printed table contains a failure")
+    Ur, Tr, fr = ru
+    ctx.cov["repr_slice_terms"] = len(Ur)
+    repr_coverage(Ur, Tr, rrule)
+    if fr is not None:
+        replay_predicted(ctx, Ur, Tr, False, keys, fr)
+        ctx.count("laws_not_rechecked_after_unmasked_failure")
+    else:
+        ctx.cov["model_triples"] += len(Ur) ** 3
+        if predicted_failures(Ur, Tr):
+            raise MachineryError("TLC accepted the laws on the repr slice but the printed table contains a failure")
+    for sharing in (False, "per-term", True):  # the sign does not depend on which sub-objects are shared
         bound(Ur, Tr, sharing)
-    bound(ru[0], ru[1], "per-term")
 
     # ---- (b) conformance ----
     for sharing in (True, False):
@@ -928,6 +930,8 @@ ATOMS = [
     ["coef", 60, [2]], ["coef", 61, [2]], ["const", 8, [2]], ["geo", "SpatialCoordinate"], ["geo", "FacetNormal"],
     ["zero", [2]], ["arg", 1, [2]],
     ["coef", 20, [2, 2]], ["coef", 21, [2, 2]], ["id"], ["zero", [2, 2]],
+    # literals whose reprs differ only in the zero padding of a digit run (one natural key, see Ordering.tla slice "repr")
+    ["lit", 1.5], ["lit", 1.05],
 ]  # fmt: skip
 
 IX1 = [[0], [1], ["i"], ["j"]]
@@ -1282,8 +1286,9 @@ def run(ctx, args):
     keys = Keys()
     ctx.rule = (
         "model: TLC runs the cmp_expr loop for every ordered pair of the term universe of Ordering.tla (terminals of every "
-        "comparator branch, operators with 0-2 operands, depth <= 2 plus three depth-3 terms) and checks the order laws on every "
-        "triple; every ordered pair is replayed on the real cmp_expr with shared and unshared sub-objects. real objects: pool = 23 "
+        "comparator branch, operators with 0-2 operands, depth <= 2 plus three depth-3 terms; second slice: float / complex / "
+        "integer literals whose reprs tie or differ in every way _cmp_terminal_by_repr distinguishes, e.g. 1.5 / 1.05 / 1.005, and "
+        "operators over them) and checks the order laws on every triple; every ordered pair is replayed on the real cmp_expr with shared and unshared sub-objects. real objects: pool = 25 "
         "atoms, all unary/indexing/as_tensor/variable wrappers of them, seeded-random binary/conditional combinations up to depth 3, "
         "plus a targeted family (as_tensor with partial index binding, then indexed); full cmp matrix (antisymmetry on all ordered "
         "pairs, transitivity on all triples by boolean closure, cmp=0 only modulo numbering); a+b, a*b (scalar, index notation, "
